@@ -15,7 +15,7 @@ def make(spec):
     op = Signal(2)
     msel = Signal(2)
     reg = Signal(2)
-    data = Signal(3)
+    data = Signal(max([3] + [mgr.count(m) for m in set(mgr)]))     # wide enough for every pending / enable bit
     master = csr_bus.Interface(data_width=8, address_width=14)
     top.comb += [
         master.adr.eq((msel - 1) * 512 + reg),
@@ -80,10 +80,19 @@ def configs(tier):
     add(["pulse", "rising"], [1, 2])
     add(["falling", "level"], [2, 1])
     if tier == "thorough":
-        add(["falling", "pulse", "level"], [1, 1, 1])
+        # every pair of kinds in one manager and across two managers.  Managers with three and more sources are not
+        # explored exhaustively on the netlist (a 3-source manager has more than 10^6 edges: 2^3 trigger patterns x
+        # 23 bus operations in > 10^4 states; the four 3-source DUTs that used to be here asked for 12 * 10^6 edges
+        # and the tier died of it): they run in T-mode (harness/checks/eventfam.py run_manager_tmode) and, as L2
+        # model, in M-mode (harness/families/event_l2.py)
         add(["pulse", "pulse"], [1, 1])
         add(["level", "falling"], [2, 1])
-        add(["rising", "falling", "pulse"], [1, 1, 1])
-        add(["pulse", "level", "rising"], [1, 2, 1])
-        add(["falling", "falling", "level"], [2, 1, 2])
+        add(["rising", "falling"], [1, 1])
+        add(["falling", "falling"], [1, 1])
+        add(["pulse", "level"], [1, 1])
+        add(["rising", "rising"], [1, 2])
+        add(["level", "level"], [1, 1])
+        add(["falling", "pulse"], [2, 1])
+        add(["rising", "pulse"], [1, 1])
+        add(["falling", "level"], [1, 1])
     return L
